@@ -86,6 +86,87 @@ func hasDeferredRecover(f *Fn) (*ast.FuncLit, bool) {
 	return nil, false
 }
 
+// recoverSetsNamedError: f has a deferred recover whose handler stores into one of f's named error results - as a
+// function literal (`defer func() { if r := recover(); r != nil { err = ... } }()`), or as a declared function of the
+// library that is handed the address of the result (`defer h(&err)`) and itself calls recover() and stores through that
+// pointer. found: there is a deferred recover at all; sets: it stores into a named error result; at: its position.
+func (c *Ctx) recoverSetsNamedError(f *Fn) (found, sets bool, at token.Pos) {
+	named := map[types.Object]bool{}
+	if f.Decl.Type.Results != nil {
+		for _, fld := range f.Decl.Type.Results.List {
+			for _, nm := range fld.Names {
+				if o := f.Pkg.TypesInfo.Defs[nm]; o != nil && isErrorLike(o.Type()) {
+					named[o] = true
+				}
+			}
+		}
+	}
+	if fl, ok := hasDeferredRecover(f); ok {
+		found, at = true, fl.Pos()
+		ast.Inspect(fl.Body, func(n ast.Node) bool {
+			if as, ok := n.(*ast.AssignStmt); ok {
+				for _, l := range as.Lhs {
+					if id, ok := l.(*ast.Ident); ok && named[f.Pkg.TypesInfo.Uses[id]] {
+						sets = true
+					}
+				}
+			}
+			return true
+		})
+		if sets {
+			return
+		}
+	}
+	for _, st := range f.Decl.Body.List {
+		d, ok := st.(*ast.DeferStmt)
+		if !ok {
+			continue
+		}
+		if _, isLit := d.Call.Fun.(*ast.FuncLit); isLit {
+			continue
+		}
+		cal := callee(f.Pkg, d.Call)
+		if cal == nil || !c.directRecoverFns()[cal] {
+			continue
+		}
+		found = true
+		if at == token.NoPos {
+			at = d.Pos()
+		}
+		h := c.fnOf(cal)
+		if h == nil || h.Decl == nil {
+			continue
+		}
+		for i, a := range d.Call.Args {
+			u, ok := ast.Unparen(a).(*ast.UnaryExpr)
+			if !ok || u.Op != token.AND {
+				continue
+			}
+			id, ok := ast.Unparen(u.X).(*ast.Ident)
+			if !ok || !named[f.Pkg.TypesInfo.Uses[id]] {
+				continue
+			}
+			po := paramObjAt(h, i)
+			if po == nil {
+				continue
+			}
+			ast.Inspect(h.Decl.Body, func(n ast.Node) bool {
+				if as, ok := n.(*ast.AssignStmt); ok {
+					for _, l := range as.Lhs {
+						if star, ok := ast.Unparen(l).(*ast.StarExpr); ok {
+							if pid, ok := ast.Unparen(star.X).(*ast.Ident); ok && h.Pkg.TypesInfo.Uses[pid] == po {
+								sets, at = true, d.Pos()
+							}
+						}
+					}
+				}
+				return true
+			})
+		}
+	}
+	return
+}
+
 // ---------- panic inventory ----------
 
 // panicExceptions: sites the discharge rules cannot handle although reading shows they are safe.
@@ -4046,43 +4127,22 @@ func (c *Ctx) deferredSomewhere(g *types.Func) bool {
 // turns the panic into the error result (F39; the export has the same boundary, C17-PANIC-COVER).
 func (c *Ctx) ruleBuildRecoverBoundary() {
 	r := c.R
-	r.Rule("C01-BUILD-RECOVER-BOUNDARY", "core.(*JApiCore).BuildCatalog, through which kit.NewJapi and kit.NewJApiFromFile build every project, has a deferred function literal that calls recover() and assigns the function's NAMED *jerr.JApiError result, and the call of the build pipeline lies in that function: a runtime panic of the schema library on a faulty document (index out of range in its readers) becomes an error of the project instead of killing the process", 2)
+	r.Rule("C01-BUILD-RECOVER-BOUNDARY", "core.(*JApiCore).BuildCatalog, through which kit.NewJapi and kit.NewJApiFromFile build every project, has a deferred recover - a function literal, or a declared function handed the address of the result - that assigns the function's NAMED *jerr.JApiError result, and the call of the build pipeline lies in that function: a runtime panic of the schema library on a faulty document (index out of range in its readers) becomes an error of the project instead of killing the process", 2)
 	bc := c.fn("core", "JApiCore.BuildCatalog")
 	if bc == nil {
 		r.Undecided("C01-BUILD-RECOVER-BOUNDARY", "anchor", "core.(*JApiCore).BuildCatalog not found", "")
 		return
 	}
 	where := c.pos(bc.Decl.Pos())
-	fl, ok := hasDeferredRecover(bc)
-	if !ok {
+	found, assigns, at := c.recoverSetsNamedError(bc)
+	if !found {
 		r.Bad("C01-BUILD-RECOVER-BOUNDARY", "BuildCatalog | recover", "the build entry has no deferred recover: a runtime panic inside jsight-schema-core (its enum reader on '[ /* abc *' at the end of a file, CollectUserTypes on the rule {type: \"\"} of a Path schema) goes through kit.NewJApiFromFile and kills the caller", where)
 		return
 	}
-	named := map[types.Object]bool{}
-	if bc.Decl.Type.Results != nil {
-		for _, fld := range bc.Decl.Type.Results.List {
-			for _, nm := range fld.Names {
-				if o := bc.Pkg.TypesInfo.Defs[nm]; o != nil && isErrorLike(o.Type()) {
-					named[o] = true
-				}
-			}
-		}
-	}
-	assigns := false
-	ast.Inspect(fl.Body, func(n ast.Node) bool {
-		if as, ok := n.(*ast.AssignStmt); ok {
-			for _, l := range as.Lhs {
-				if id, ok := l.(*ast.Ident); ok && named[bc.Pkg.TypesInfo.Uses[id]] {
-					assigns = true
-				}
-			}
-		}
-		return true
-	})
 	if !assigns {
-		r.Bad("C01-BUILD-RECOVER-BOUNDARY", "BuildCatalog | recover", "the deferred recover of the build entry does not assign the named error result: a recovered panic is reported as success", c.pos(fl.Pos()))
+		r.Bad("C01-BUILD-RECOVER-BOUNDARY", "BuildCatalog | recover", "the deferred recover of the build entry does not assign the named error result: a recovered panic is reported as success", c.pos(at))
 	} else {
-		r.Ok("C01-BUILD-RECOVER-BOUNDARY", "BuildCatalog | recover", "deferred recover assigns the named *jerr.JApiError result", c.pos(fl.Pos()))
+		r.Ok("C01-BUILD-RECOVER-BOUNDARY", "BuildCatalog | recover", "deferred recover assigns the named *jerr.JApiError result", c.pos(at))
 	}
 	// the pipeline runs inside, and the kit entry points build through BuildCatalog only
 	pj := c.P.LookupFunc("core", "JApiCore.processJApiProject")
